@@ -16,6 +16,8 @@ LEVEL = "other"
 def run(chk):
     cfgs = ["base", "z"] if chk.tier == "quick" else ["base", "z", "hi", "noexc"]
     chk.configs = cfgs
+    chk.rule("PRECISION.forwarded", "every function with a precision parameter uses it for more than validation (pow(10, .), a ClipperD constructor, another "
+             "function's precision) and constructs no ClipperD with the default precision: integer scaling / translation of decimal data is honoured")
     chk.rule("SCALE.wrapper", "dimensional analysis of every function that derives a scale from a precision: S^1 at every integer-API "
              "length argument (paths, rect, delta, arc_tolerance), S^0 at every return")
     chk.rule("SCALE.ClipperD", "ClipperD: scale_ from pow(10, precision), invScale_ = 1/scale_, inputs * scale_, outputs * invScale_, "
@@ -28,6 +30,8 @@ def run(chk):
         db = AstDB(cfg)
         e8.rule_wrappers(db, chk, cfg)
         e8.rule_clipperd(db, chk, cfg)
+        from ..engines import e8_scale as _e8p
+        _e8p.rule_precision_forwarded(db, chk, cfg)
         e8.rule_clipperd_scale_table(db, chk, cfg)
         e8.rule_rounding(db, chk, cfg)
         try:
